@@ -338,7 +338,8 @@ def run_esc_matrix(ctx, everycut_one_in):
             continue
         s = [ct, successor] if (i % 3 == 0 and successor in built) else [ct]
         trailer = TRAILERS[i % len(TRAILERS)]
-        jobs += seg_jobs(rng, s, built, trailer, ['whole', 'bytes', 'lines', 'random'], i % everycut_one_in == 0)
+        modes = ['whole', 'bytes', 'lines', 'random'] if everycut_one_in == 1 else ['whole', 'random', 'bytes' if i % 2 else 'lines']
+        jobs += seg_jobs(rng, s, built, trailer, modes, i % everycut_one_in == 0)
     parse_back(ctx, jobs, built)
 
 
@@ -932,6 +933,8 @@ def run(ctx):
                          '(alone and with a pipelined successor) and, separately, written by a peer; '
                          'patterns: message_esc_pattern / esc_pattern / code_pattern against their models exhaustively over small alphabets, Reply(code, text) against reply_ctor; '
                          'malformed: every byte string over {2,5,-,SP,CR,LF,a,.} to the stated length plus structured bad-UTF-8/mixed-code/non-numeric replies; '
+                         'orders: one Reply object under operation sequences (constructor / setters in every order / code changed across classes / ESC str, None, False / Reply.copy(pre-defined or built reply) / several writes of the same object), every write judged and read back; '
+                         'sizes: replies whose longest wire line is L-d bytes, L in 1000,4095,4096,4097,5000,8192(,16384,65536), d in 0..3, ASCII and 3-byte characters, long line alone/first/middle/last, successor pipelined, read in 4096-byte reads (raw_recv), 4095, 4097, 1000 and cut before the CRLF; '
                          'every implementation call is guarded: an exception out of Reply()/send is c17:build-raises, out of Reply.recv (other than BadReply/ConnectionLost) c17:recv-raises-not-badreply; '
                          'distinct_nontrivial counts distinct (reply, segmentation) cases with multi-line, status-code-looking, non-ASCII or pipelined content, malformed inputs containing a complete line, '
                          'and pattern strings that one of the patterns matches')
@@ -940,8 +943,8 @@ def run(ctx):
         ('classes', lambda: run_classes(ctx)),
         ('esc-matrix', lambda: run_esc_matrix(ctx, 16 if ctx.quick else 1)),
         ('peer-esc', lambda: run_peer_esc(ctx, 500 if ctx.quick else 20000)),
-        ('orders', lambda: run_orders(ctx, 1500 if ctx.quick else 30000, 16 if ctx.quick else 2)),
-        ('sizes', lambda: run_sizes(ctx, [1000, 4095, 4096, 4097, 5000, 8192] if ctx.quick else [1000, 4095, 4096, 4097, 5000, 8192, 16384, 65536], [16384, 65536] if ctx.quick else [131072], not ctx.quick)),
+        ('orders', lambda: run_orders(ctx, 1500 if ctx.quick else 12000, 16 if ctx.quick else 4)),
+        ('sizes', lambda: run_sizes(ctx, [1000, 4095, 4096, 4097, 5000, 8192] if ctx.quick else [1000, 4095, 4096, 4097, 5000, 8192, 16384, 65536], [16384, 65536] if ctx.quick else [], not ctx.quick)),
         ('structured', lambda: run_structured(ctx, 800 if ctx.quick else 4000)),
         ('patterns', lambda: run_patterns(ctx, 5 if ctx.quick else 7, 6 if ctx.quick else 7)),
         ('malformed', lambda: run_malformed(ctx, 5 if ctx.quick else 7)),
